@@ -127,13 +127,13 @@ LABELS = ["terrain", "sph1", "cyl_2"]
 ZONES = ["", "", "", "solid", "zone.1"]
 
 
-def _cell_points(cell, rot=None, skew=None) -> List[List[float]]:
+def _cell_points(cell, rot=None, skew=None, origin=(0.0, 0.0, 0.0), size=1.0, gap=0.0) -> List[List[float]]:
     from .c05 import CUBE, ROTS
 
     rot = rot or list(range(8))
     pts = []
     for c in range(8):
-        p = [float(cell[a] + CUBE[rot[c]][a]) for a in range(3)]
+        p = [float(origin[a] + cell[a] * (size + gap) + CUBE[rot[c]][a] * size) for a in range(3)]
         if skew:
             p = [p[0] + skew * p[2], p[1], p[2]]
         pts.append(p)
@@ -151,9 +151,14 @@ def gen_program(rng: random.Random, tier: str = "quick") -> dict:
     cells = [(i, j, k) for i in range(2) for j in range(2) for k in range(2)]
     rng.shuffle(cells)
     n_ops = rng.randint(1, 5) if kind != "shapes" else 0
+    # 25%: a geo-referenced scene (UTM-like coordinates), blocks of 10 m, half of them separated by slits of 0.5 m:
+    # points much closer than 1e-5 * |coordinate| are still different points
+    far = rng.random() < 0.25
+    origin, size = ((500000.0, 4200000.0, 100.0), 10.0) if far else ((0.0, 0.0, 0.0), 1.0)
+    gap = rng.choice([0.0, 0.5]) if far else 0.0
     for o in range(n_ops):
         cell = cells[o]
-        e: Dict[str, Any] = {"t": "loft", "points": _cell_points(cell, rng.choice(ROTS) if rng.random() < 0.5 else None), "calls": []}
+        e: Dict[str, Any] = {"t": "loft", "points": _cell_points(cell, rng.choice(ROTS) if rng.random() < 0.5 else None, None, origin, size, gap), "calls": []}
         for _ in range(rng.randint(0, 6)):
             r = rng.random()
             if r < 0.35:
@@ -221,6 +226,7 @@ def gen_program(rng: random.Random, tier: str = "quick") -> dict:
         "delete": deletions,
         "count": count,
         "vtk": rng.random() < 0.5,
+        "far": far and n_ops > 0,
     }
 
 
@@ -497,6 +503,7 @@ class C06(core.Check):
     workers = 8
     rule = (
         "random programs over the public API: 1..5 hexahedral operations on cells of a 2x2x2 lattice (random corner "
+        "renumbering; 25% of the programs geo-referenced: origin (5e5, 4.2e6, 100), 10 m cells, optionally 0.5 m slits; "
         "renumbering) with set_patch / project_side(edges, points) / project_edge / project_corner / set_cell_zone / "
         "curved edges (arc, collinear arc, origin, spline, polyLine) in random storage slots, and/or built-in shapes "
         "(Cylinder, Frustum, ExtrudedRing, Hemisphere, a copied Hemisphere, a Hemisphere with a rotated copy, boxes) with "
@@ -1044,6 +1051,8 @@ class C06(core.Check):
             flags.append("vtk")
         if any(c[0] == "merge" for c in case["before"] + case["after"]):
             flags.append("merge")
+        if case.get("far"):
+            flags.append("far-origin")
         return "+".join(kinds) + "|" + "+".join(flags)
 
 
